@@ -901,7 +901,7 @@ def c19(tier, seed):
 
 
 def c09(tier, seed):
-    return stream_obs(['h_sgetb32', 'h_sgetb64', 'h_sgetble32', 'h_sgetbs']) + crc_obs(tier) + state_obs(tier) + crc_record_obs() + mapguard_obs() + runguard_obs() + ssync_obs() + header_obs()
+    return stream_obs(['h_sgetb32', 'h_sgetb64', 'h_sgetble32', 'h_sgetbs']) + crc_obs(tier) + state_obs(tier) + crc_record_obs() + mapguard_obs() + runguard_obs() + ssync_obs() + header_obs() + othercopies_obs()
 
 
 NSEC_ENC = dict(region='nsec_enc', file='cmdline/state.c', begin='/* encode STAT_NSEC_INVALID as 0 */', end='sputb64(inode, f);', end_first_after=True, max_lines=8, expect_loops=0,
@@ -1074,6 +1074,16 @@ def maprec_obs():
                note='1..3 disks, each empty or not, every position / block counts / uuid letter; find_disk_by_name, fs_is_empty, map_alloc, tommy_array_grow / set by stub; list functions real'),
             Ob('state.map_records.old_format', 'harness/h_maprec.c', 'h_map_old_record', inject=regs, unwind=6, small_path=True, timeout=900, mem=8, cost=3,
                functions=["state_read_content: branch of the 'm' / 'M' record (cmdline/state.c, extracted mechanically)"], note="an 'm' record (reference format before 7.0) with every position and uuid letter")]
+
+
+OTHER_COPIES = dict(region='other_copies', file='cmdline/state.c', begin='/* go further to check other content files */', end='/* start with a undefined default. */', end_first_after=True, max_lines=45, expect_loops=1,
+                    proto='static void region_other_copies(struct snapraid_state *state, tommy_node *node, const char *path, struct stat *st_p)', prologue='\tint ret;\n\tstruct stat st = *st_p;')
+
+
+def othercopies_obs():
+    return [Ob('state.read.other_copies.region', 'harness/h_othercopies.c', 'h_other_copies', inject=[OTHER_COPIES], unwind=5, small_path=True, timeout=600, mem=6, cost=2, kind='bounded', bound='2 remaining content copies',
+               functions=['state_read: region "go further to check other content files" (cmdline/state.c, extracted mechanically)'],
+               note='0..2 remaining copies, each present / missing / unreadable, every size; stat by recording stub')]
 
 
 def mapguard_obs():
